@@ -4,6 +4,8 @@
    2. the existing suite (nextest, same command as the baseline) passes as on the unchanged tree,
    3. the demonstration fails with the change and passes without it.
 usage: confirm_seed.py <seed_dir> <demo_dest_relpath> <mod_file_relpath> <mod_line> <test_filter>
+env: CONFIRM_TEST="-p sos-integration-tests --test main" (default: -p sos-unit-tests), CONFIRM_DEMO=demo_unit.rs
+(default demo.rs), CONFIRM_HARNESS=test-harness.diff (dev-dependency diff applied only for the demonstration).
 Writes <seed_dir>/confirm.json and confirm.log."""
 import json, os, re, subprocess, sys, time
 
@@ -50,13 +52,24 @@ for f in sorted(fails - KNOWN_FAIL):
 res["suite"]["fail_again_alone"] = still
 res["suite_passes"] = m is not None and not still
 # 3. demo with the change
-sh("cp %s/demo.rs %s && echo '%s' >> %s" % (seed, demo_dest, mod_line, mod_file))
-rc, out = sh("cargo test -p sos-unit-tests --offline %s 2>&1 | tail -30" % filt, timeout=3000)
-res["demo_with_change"] = "FAILED" if ("FAILED" in out or "panicked" in out or rc != 0) else "ok"
+TEST = os.environ.get("CONFIRM_TEST", "-p sos-unit-tests")
+DEMO = os.environ.get("CONFIRM_DEMO", "demo.rs")
+HARN = os.environ.get("CONFIRM_HARNESS")
+if HARN:
+    rc, _ = sh("git apply %s/%s" % (seed, HARN))
+    res["harness_applies"] = rc == 0
+sh("cp %s/%s %s" % (seed, DEMO, demo_dest))
+if mod_line.strip():
+    sh("echo '%s' >> %s" % (mod_line, mod_file))
+for pair in filter(None, os.environ.get("CONFIRM_EXTRA_COPY", "").split(",")):
+    a, b = pair.split(":")
+    sh("cp %s %s" % (a, b))
+rc, out = sh("cargo test %s --offline %s 2>&1 | tail -30" % (TEST, filt), timeout=3000)
+res["demo_with_change"] = "BUILD-ERROR" if "could not compile" in out else ("FAILED" if ("test result: FAILED" in out or "panicked" in out) else "ok")
 # demo without the change
 sh("git apply -R %s/patch.diff" % seed)
-rc, out = sh("cargo test -p sos-unit-tests --offline %s 2>&1 | tail -30" % filt, timeout=3000)
-res["demo_without_change"] = "ok" if (rc == 0 and "test result: ok" in out) else "FAILED"
+rc, out = sh("cargo test %s --offline %s 2>&1 | tail -30" % (TEST, filt), timeout=3000)
+res["demo_without_change"] = "BUILD-ERROR" if "could not compile" in out else ("ok" if ("test result: ok" in out and "test result: FAILED" not in out and not re.search(r"test result: ok\. 0 passed", out)) else "FAILED")
 sh("git checkout -- . && git clean -fdq -e target")
 res["seconds"] = round(time.time() - t0)
 res["confirmed"] = bool(res["applies"] and res["compiles"] and res["suite_passes"] and res["demo_with_change"] == "FAILED" and res["demo_without_change"] == "ok")
